@@ -148,6 +148,27 @@ def check_cart(ctx, res, code, regs, version, label, tag, batch, label_rows_defa
         batch.append(('frompixels 160 ' + hx(flat), exp, {'op': 'frompixels', 'code': hx(code1)[:60]}))
 
 
+def tune_compressed(ctx, rng, target):
+    """Code that is stored compressed and whose compressed stream is `target` bytes long (found with the fast Lean model of
+    compress_code; the implementation is then run on it once). None if the model is unavailable or tuning does not converge."""
+    if not ctx.model.available:
+        return None
+    alphabet = b'0123456789abcdefghijklmnopqrstuvwxyz!%(){}[]<>+=/*:;.,~_ '
+    pool = bytes(rng.choice(alphabet) for _ in range(target + 2000))
+    tail = b'\n' + b'a' * 400 + b'\n'
+    n = target - 40
+    for _ in range(12):
+        code = b'--' + pool[:n] + tail
+        out = ctx.model.run(['comp ' + hx(code)])[0]
+        ln = (len(out) - 3) // 2
+        if ln == target:
+            return code
+        n += target - ln
+        if n < 10 or n > len(pool):
+            return None
+    return None
+
+
 def incompressible(rng, n):
     return bytes(rng.choice(b'ABCDEFGHIJKLMNOPQRSTUVWXYZ') for _ in range(n))
 
@@ -175,6 +196,12 @@ def run(ctx, res):
         # compressed size straddling the area: random digits compress poorly but below raw size
         for n in (AREA + 600, AREA + 2500):
             codes.append(b'--' + bytes(rng.choice(b'0123456789abcdef') for _ in range(n)))
+    # compressed size straddling the code area: header (8) + stream within a few bytes of 0x3d00 on either side
+    for target in ([AREA - 8, AREA - 7] if not ctx.thorough() else [AREA - 9, AREA - 8, AREA - 7, AREA - 4, AREA - 1, AREA, AREA + 1]):
+        c = tune_compressed(ctx, rng, target)
+        if c is not None:
+            codes.append(c)
+            res.count('tuned-compressed-size')
     for i, code in enumerate(codes):
         regs = {nm: U.rand_bytes(rng, sz) for nm, sz in U.REGION_SIZES}
         version = rng.choice([1, 8, 33, 41, 255]) if i else 5
